@@ -1116,7 +1116,9 @@ def part_symbols(c, phase):
                     if cc not in ("", "O"):
                         what.append("containers over the symbols differ between routes (bits %d)" % (ord(cc) - 48))
                     if lost != "0:-1":
-                        what.append("%s held filler symbols are not found again (first: c03fill%s)" % tuple(lost.split(":")))
+                        ln, lf = lost.split(":")
+                        what.append("%s held symbols are not found again when interned by name (first: %s)" % (
+                            ln, "c03fill" + lf if int(lf) < 1000000 else "core environment symbol no. %d in sorted order" % (int(lf) - 1000000)))
                     law = "interned-not-identical" if (any(ch not in ".o" for ch in a) or lost != "0:-1") else (
                         "different-content-equal" if any(ch != "0" for ch in b) else "same-content-not-equal")
                     c.sym_violation(tag, names, nfill, h, "; ".join(what), law + ":symbol-history", context)
